@@ -369,6 +369,13 @@ pub fn run(tier: Tier, replay: Option<&J>) -> i32 {
     texts_b.push(("decimal-precision-2^64-1".into(), r#"{"type":"bytes","logicalType":"decimal","precision":18446744073709551615,"scale":0}"#.into()));
     texts_b.push(("nested-redefinition".into(), r#"{"type":"record","name":"A","fields":[{"name":"f","type":{"type":"record","name":"A","fields":[]}}]}"#.into()));
     texts_b.push(("enum-redefines-record".into(), r#"{"type":"record","name":"A","fields":[{"name":"f","type":{"type":"enum","name":"A","symbols":["X"]}}]}"#.into()));
+    // unions with two unnamed branches of the same underlying type, one of them carrying a logical type
+    for (lt, base, extra) in [("uuid", "bytes", ""), ("uuid", "string", ""), ("decimal", "bytes", r#","precision":4,"scale":1"#), ("big-decimal", "bytes", ""), ("date", "int", ""), ("time-millis", "int", ""), ("time-micros", "long", ""), ("timestamp-millis", "long", ""), ("timestamp-micros", "long", ""), ("timestamp-nanos", "long", ""), ("local-timestamp-millis", "long", ""), ("local-timestamp-micros", "long", ""), ("local-timestamp-nanos", "long", "")] {
+        let logical = format!(r#"{{"type":"{base}","logicalType":"{lt}"{extra}}}"#);
+        texts_b.push((format!("union-same-base-twice/{lt}-first"), format!(r#"[{logical},"{base}"]"#)));
+        texts_b.push((format!("union-same-base-twice/{lt}-last"), format!(r#"["null","{base}",{logical}]"#)));
+        texts_b.push((format!("union-same-base-twice/{lt}-in-field"), format!(r#"{{"type":"record","name":"U","fields":[{{"name":"u","type":[{logical},"{base}"]}}]}}"#)));
+    }
     // (c) all short strings
     let shorts = short_strings(if tier == Tier::Quick { 5 } else { 6 });
     let all: Vec<(String, String)> = texts_a.into_iter().chain(texts_b).chain(shorts.into_iter().map(|s| ("short-string".to_string(), s))).collect();
